@@ -512,6 +512,10 @@ def totality_cases(ctx):
         for e in G.nesting_cases(d):
             for m in (['expr', rng.choice(['unary', 'boxed', 'context', 'name', 'textual', 'textuals'])] if ctx.quick else G.MODES):
                 add('nesting-%d' % d, e, '{a: 1, f: function(x) x}' if d <= 50 else '{f: function(x) x}', m)
+    # listed finding dtd-sum-beyond-i128: the witness (17 doublings of the largest literal leave the i128 of nanoseconds) and its neighbours that stay inside
+    for n in (15, 16, 17, 18, 20):
+        add('dtd-sum', 'for i in 1..%d return if i = 1 then duration("P18446744073709551615D") else partial[-1] + partial[-1]' % n)
+        add('dtd-sum', 'for i in 1..%d return if i = 1 then duration("-P18446744073709551615D") else partial[-1] + partial[-1]' % n)
     for e in ['for in in [1] return 1', 'for in in in return in', 'some in in [1] satisfies in', 'for x in in return 1', 'in in in', 'for  in', 'for', 'for x', 'for x in', 'some', 'every x in', 'x in', 'in',
               'for x in 9223372036854775806..9223372036854775807 return x', 'for x in -9223372036854775807..-9223372036854775808 return x',
               'count(for x in 9223372036854775807..9223372036854775807, y in [1,2] return 1)', 'sublist([1,2,3], -4, 1)', 'duration("P9999999999999999999Y")',
@@ -554,6 +558,11 @@ def run_totality(ctx):
                         ctx.nontrivial.add((c['e'], c['mode']))
                     continue
                 case = {'e': c['e'], 'ctx': c['ctx'], 'mode': c['mode'], 'build': 'release' if rel else 'debug', 'generator': c['tag']}
+                # listed finding dtd-sum-beyond-i128, identified by its call site: the `+` of two days-and-time durations (dt_duration.rs, impl Add) is an
+                # unchecked i128 addition; any other panic, also one in the same file, is a violation
+                if (k == 'panic' and not rel and 'attempt to add with overflow' in str(ri.get('panic')) and str(ri.get('at', '')).rsplit(':', 1)[0].endswith('feel/src/temporal/dt_duration.rs')
+                        and 'duration(' in c['e'] and '+' in c['e'] and ctx.known('dtd-sum-beyond-i128', case)):
+                    continue
                 ctx.violation('%s in the %s build (%s, mode %s): %s  %s' % (k, case['build'], c['tag'], c['mode'], c['e'][:200], json.dumps(ri)[:200]), case, impl=ri)
         done += len(batch)
         if len(ctx.violations) >= 20:
